@@ -52,9 +52,8 @@ def FactsOK : Bool :=
   -- a recursion on `ops[1:]` in each of the three branches, the evaluated rest handed back to `interpretOp`
   raw.opsCompare == "ops[0] >= ops[1]" && raw.opsRestCalls == 3 && raw.opsRecheck &&
   -- `sorted(reverse=True)` runs the same sort with the comparison flipped (tied elements keep their original order);
-  -- the sort function is one the model knows (sort.Slice: an insertion sort, hence stable, up to 12 elements)
-  raw.sortedReverse == "flip-comparator" &&
-  raw.sortedSortFns.all (fun f => ["sort.Slice", "sort.SliceStable", "slices.SortStableFunc"].contains f)
+  -- the sort is a stable one (for every length)
+  raw.sortedReverse == "flip-comparator" && raw.sortedSortFns == ["sort.SliceStable"] && F.sortedStable
 
 /-- Obligation a code change can break. -/
 theorem C16_facts_ok : FactsOK = true := by decide
@@ -572,8 +571,9 @@ example : litOK (-7) ∧ litOK 3 ∧ litOK 9007199254740993 ∧ litOK 1 := by un
 open PlzVerif.SortSpec in
 /-- **The sort of the asp model is the sort of the reference**, for all lists and every strict weak order on the
     (key, element) pairs — ascending and, with the comparison flipped as `sorted(reverse=True)` does it, descending:
-    `Asp.stableSort` (Go's insertion sort front to back) and `Py.stableSort` (insertion back to front) with a pure
-    comparison both compute `sortB`, the stable sort.  Tied elements keep their original order in both directions. -/
+    `Asp.stableSort` (insertion sort front to back) and `Py.stableSort` (insertion back to front) with a pure
+    comparison both compute `sortB`, the stable sort, for lists of every length (`sorted` uses `sort.SliceStable`:
+    `FactsOK`).  Tied elements keep their original order in both directions. -/
 theorem C16_sort_agrees :
     (∀ (lt : Asp.Val × Asp.Val → Asp.Val × Asp.Val → Bool), StrictWeak lt → ∀ l,
       Asp.stableSort (fun a b => (pure (lt a b) : EM Bool)) l = pure (sortB lt l) ∧
@@ -600,6 +600,24 @@ theorem C16_reverse_after_differs :
       = [(2, "bb"), (2, "cc"), (1, "a")] ∧
     (sortA (fun (a b : Nat × String) => decide (a.1 < b.1)) [(2, "bb"), (1, "a"), (2, "cc")]).reverse
       = [(2, "cc"), (2, "bb"), (1, "a")] := by decide
+
+/-- The facts before `fix: sorted is stable`: `sort.Slice`. -/
+def oldSortFn : Facts := { F with sortedStable := false }
+
+/-- 13 ints keyed by `x % 3`: `xs = [3, 4, 5, 6, 7, 8, 9, 10, 11, 12, 13, 14, 15]; r = sorted(xs, key=lambda x: x % 3)` -/
+def wSortLong : Program :=
+  [.assign "xs" (.list 1 ((List.range 13).map fun (i : Nat) => Expr.int ((i : Int) + 3))),
+   .assign "r" (.call "sorted" [(none, .name "xs"),
+      (some "key", .lam ["x"] (.chain none (.name "x") [(.mod, none, .int 3)]))])]
+
+set_option maxRecDepth 100000 in
+/-- **Stable for every length**: on 13 elements with tied keys the two interpreters run and agree today; at the old
+    fact value (`sort.Slice`, whose order of ties beyond 12 elements is unspecified — the repaired finding
+    `sorted-not-stable-beyond-12`, witness on the real code in corpus/C16/fixed-sorted-not-stable-beyond-12.ops) the
+    model does not evaluate the program at all. -/
+theorem C16_old_sort_beyond_12 :
+    (disagree false 80 wSortLong = false ∧ bothRun F false 80 wSortLong = true) ∧
+    (runProgram oldSortFn false 80 wSortLong).toOption.isSome = false := by decide +kernel
 
 /-- `ws = ["bb", "a", "cc", "d", "eee"]; r = sorted(ws, key=lambda w: len(w), reverse=True)` -/
 def wSortKey : Program :=
